@@ -374,7 +374,28 @@ class Folder:
         if isinstance(e, ast.Dict):
             return {self.ev(k): self.ev(v) for k, v in zip(e.keys, e.values) if k is not None}
         if isinstance(e, ast.JoinedStr):
-            raise Unknown("f-string")
+            out = ""
+            for v in e.values:
+                if isinstance(v, ast.Constant):
+                    out += str(v.value)
+                elif isinstance(v, ast.FormattedValue):
+                    val = self.ev(v.value)
+                    if isinstance(val, Opaque):
+                        raise Unknown("f-string of an opaque value")
+                    if v.conversion == ord("r"):
+                        val = repr(val)
+                    elif v.conversion == ord("s"):
+                        val = str(val)
+                    elif v.conversion == ord("a"):
+                        val = ascii(val)
+                    spec = self.ev(v.format_spec) if v.format_spec is not None else ""
+                    try:
+                        out += format(val, spec)
+                    except PYEXC as x:
+                        raise Raised(type(x).__name__)
+                else:
+                    raise Unknown("f-string part")
+            return out
         if isinstance(e, ast.DictComp):
             out = {}
             saved = dict(self.env)
